@@ -81,6 +81,8 @@ func routeInputs() []inputStmt {
 		{"query-int64", "num := ct.QueryParamInt64(c, \"num\")\n\t_ = num", q("num", "int64")},
 		{"query-generic", "gid, errG := QueryParamInt[IdDossier](c, \"gid\")\n\t_, _ = gid, errG", q("gid", "IdDossier")},
 		{"query-generic-qualified", "gq, errQ := inner.QueryParamInt[IdDossier](c, \"gq\")\n\t_, _ = gq, errQ", q("gq", "IdDossier")},
+		{"query-escaped-name", "qe := c.QueryParam(\"q\\x2de\")\n\t_ = qe", q("q-e", "string")},
+		{"form-value-escaped", "fve := c.FormValue(\"f\\u00e9\")\n\t_ = fve", func(r *Route) { r.FormValues = append(r.FormValues, "f\u00e9") }},
 		{"query-const-name", "qc := c.QueryParam(paramName)\n\t_ = qc", q("from-const", "string")},
 		{"query-assign", "var qs string\n\tqs = c.QueryParam(\"q3\")\n\t_ = qs", q("q3", "string")},
 		{"query-var-decl", "var qv = c.QueryParam(\"q4\")\n\t_ = qv", q("q4", "string")},
@@ -124,7 +126,7 @@ func Routes(c explore.Chooser) *prog.Program {
 	echoPath, innerPath := base+"/echo", base+"/inner"
 
 	verb := s.Pick("r0.verb", "GET", "POST", "PUT", "DELETE")
-	pathForm := s.Pick("r0.path", "literal", "local-const", "package-const", "imported-const", "concat-literal-const", "concat-three", "typed-const")
+	pathForm := s.Pick("r0.path", "literal", "local-const", "package-const", "imported-const", "concat-literal-const", "concat-three", "typed-const", "literal-with-escapes", "raw-literal")
 	handlerForm := s.Pick("r0.handler", "method-value", "method-pointer-var", "package-func", "func-literal", "method-of-other-file", "parenthesised", "method-after-homonym", "func-after-homonym-method")
 	ins := routeInputs()
 	var chosen []inputStmt
@@ -180,6 +182,11 @@ func Routes(c explore.Chooser) *prog.Program {
 		pathExpr, r0.URL = `pkgURL + "sub/" + localURL`, "/api/pkg/sub//api/local"
 	case "typed-const":
 		pathExpr, r0.URL = "typedURL", "/api/typed"
+	case "literal-with-escapes":
+		// an interpreted literal whose value is not its source text
+		pathExpr, r0.URL = `"/api/caf\u00e9/\x61\"b"`, "/api/caf\u00e9/a\"b"
+	case "raw-literal":
+		pathExpr, r0.URL = "`/api/raw\\x61`", "/api/raw\\x61"
 	}
 
 	// handler
